@@ -50,15 +50,20 @@ def deepfp_str(obj, top_attrs=None) -> str:
     out = []
 
     def walk(o):
+        t = type(o)
+        if t is str or t is int or t is bool or t is float or o is None:
+            out.append("%s:%r" % (t.__name__, o))
+            return
         if isinstance(o, enum.Enum):
             out.append("E:%s.%s" % (type(o).__qualname__, o.name))
             return
-        if isinstance(o, _ATOM):
-            out.append("%s:%r" % (type(o).__name__, o))
-            return
-        if isinstance(o, (type, types.FunctionType, types.BuiltinFunctionType, types.MethodType, types.ModuleType)):
-            out.append("C:%s" % getattr(o, "__qualname__", getattr(o, "__name__", "?")))
-            return
+        if t is not list and t is not tuple and t is not dict and t is not set:
+            if isinstance(o, _ATOM):
+                out.append("%s:%r" % (type(o).__name__, o))
+                return
+            if isinstance(o, (type, types.FunctionType, types.BuiltinFunctionType, types.MethodType, types.ModuleType)):
+                out.append("C:%s" % getattr(o, "__qualname__", getattr(o, "__name__", "?")))
+                return
         i = id(o)
         if i in memo:
             out.append("@%d" % memo[i])
